@@ -255,7 +255,9 @@ func (c *Ctx) c09Constants() {
 		return
 	}
 	amt := o.Of(keyUpd.Key)
-	okAmt := strings.Contains(amt.String(), "math.Pow(#2, ") && o.Of(pkUpd.Key).String() == amt.String()
+	// 2^i written as math.Pow(2, i) or as a shift of 1
+	pow2 := strings.Contains(amt.String(), "math.Pow(#2, ") || (amt.K == "bin" && amt.S == "<<" && isConst(amt.Args[0], "1")) || strings.HasPrefix(amt.String(), "(#1 << ")
+	okAmt := pow2 && o.Of(pkUpd.Key).String() == amt.String()
 	R.Check("R6", fk, "amounts are 2^i", c.P.InstrPos(keyUpd), okAmt, "key i is for amount 2^i, the same in the private and the public map", short(amt.String(), 120))
 	l := o.Loops.InnermostContaining(keyUpd.Block())
 	okLoop := false
